@@ -2,6 +2,7 @@ package c17
 
 import (
 	"bytes"
+	"encoding/base32"
 	"encoding/binary"
 	"encoding/hex"
 	"fmt"
@@ -61,7 +62,7 @@ func checkHash(c hashCase) error {
 		return nil
 	}
 	n2, err := labelsOf(c.Name2)
-	if err != nil || !n.EqualFold(n2) {
+	if err != nil || !n.EqualFold(n2) || rawHigh(c.Name) || rawHigh(c.Name2) {
 		return nil
 	}
 	salt := hex.EncodeToString(c.Salt)
@@ -71,7 +72,8 @@ func checkHash(c hashCase) error {
 	esc := strings.Contains(c.Name, `\`)
 	pbt.Note([]byte(fmt.Sprintf("%s|%x|%d|%d", c.Name, c.Salt, c.Iter, c.Alg)), c.Alg == 1 && (len(n) > 0 || len(c.Salt) > 0),
 		iterClass(c.Iter), saltClass(len(c.Salt)), fmt.Sprintf("alg=%d", min(int(c.Alg), 2)), fmt.Sprintf("escaped=%v", esc),
-		fmt.Sprintf("labels=%d", min(len(n), 4)), fmt.Sprintf("casevariant=%v", c.Name != c.Name2))
+		fmt.Sprintf("labels=%d", min(len(n), 4)), fmt.Sprintf("casevariant=%v", c.Name != c.Name2),
+		fmt.Sprintf("name-has-octet>=0x80(written \\DDD)=%v", highOctet(n)))
 	if esc {
 		pbt.Sample("escaped-name", c.Name)
 	}
@@ -147,6 +149,7 @@ const (
 	findCoverOwner = "nsec3-cover-owner-hash" // DESIGN §4 #2
 	findNextCase   = "nsec3-next-hash-case"   // zone text keeps the next hash in the case it was written in
 	findRootZone   = "nsec3-root-zone"        // owner name of a single label (root zone) never matches / covers
+	findNoHash     = "nsec3-cover-no-hash"    // Cover is true for wrapping / empty intervals when the record's hash cannot be computed
 )
 
 type coverCase struct {
@@ -163,6 +166,16 @@ type coverCase struct {
 	FromText  bool   // the record is read from presentation text by dns.NewRR (wins over FromWire)
 	NextText  string // FromText only: the next hashed owner name field as written (any letter case)
 	SkipCover bool   // set by the generator only: known-finding class, Cover is not asserted
+	// records whose hash function cannot be applied at all: NoHash "" = an ordinary record (SHA-1, salt
+	// in hex); "alg" = the record's hash algorithm field is HashAlg (anything but 1; RFC 5155 defines
+	// SHA-1 only, and a record with any other value arrives from the wire or a zone file like any
+	// other); "salt" = the record's Salt field is SaltText, which is not an even number of hex digits
+	// (a struct literal, or a zone file: the parser stores the salt token as written). For such a
+	// record no name has a hash, so nothing equals the owner hash and nothing lies between owner and
+	// next hash: Match and Cover are false for every name.
+	NoHash   string
+	HashAlg  uint8
+	SaltText string
 }
 
 func inZone(name, zone ref.Labels) bool {
@@ -236,16 +249,42 @@ func checkCover(c coverCase) error {
 	if !strings.EqualFold(c.OwnerText, ref.Base32Hex(c.OwnerHash)) {
 		return nil
 	}
+	switch c.NoHash {
+	case "":
+	case "alg":
+		if c.HashAlg == 1 {
+			return nil
+		}
+	case "salt":
+		if _, err := hex.DecodeString(c.SaltText); err == nil || c.SaltText == "" || strings.ContainsAny(c.SaltText, " \t\n\r;()\"\\") || c.SaltText == "-" || (c.FromWire && !c.FromText) {
+			return nil // decodable after all, not one zone-file token, or not expressible in that source
+		}
+	default:
+		return nil
+	}
 	h := ref.NSEC3HashRaw(name, c.Salt, c.Iter)
 	in := inZone(name, zone)
 	shape, pos := shapeOf(c.OwnerHash, c.NextHash), posOf(h, c.OwnerHash, c.NextHash)
 	wantMatch := in && bytes.Equal(h, c.OwnerHash)
 	wantCover := in && strictlyInside(h, c.OwnerHash, c.NextHash)
+	if c.NoHash != "" {
+		wantMatch, wantCover = false, false
+	}
 	nontrivial := pos == "eq-owner" || pos == "eq-next" || shape == "wrapping"
 	pbt.Note([]byte(fmt.Sprintf("%s|%s|%x|%d|%x|%x", c.NameText, c.ZoneText, c.Salt, c.Iter, c.OwnerHash, c.NextHash)), nontrivial,
 		"shape="+shape, "pos="+pos, fmt.Sprintf("inzone=%v", in), fmt.Sprintf("cell=%s/%s/in=%v", shape, pos, in),
 		fmt.Sprintf("cover=%v", wantCover), fmt.Sprintf("match=%v", wantMatch), fmt.Sprintf("source=%s", map[bool]string{true: "text", false: map[bool]string{true: "wire", false: "literal"}[c.FromWire]}[c.FromText]),
-		fmt.Sprintf("rootzone=%v", len(zone) == 0))
+		fmt.Sprintf("rootzone=%v", len(zone) == 0), "hash-computable="+map[string]string{"": "yes", "alg": "no(hash algorithm)", "salt": "no(salt text)"}[c.NoHash])
+	if c.NoHash != "" {
+		pbt.Class(fmt.Sprintf("no-hash/%s/in=%v", shape, in))
+	}
+	hashAlg, saltField := uint8(1), hex.EncodeToString(c.Salt)
+	switch c.NoHash {
+	case "alg":
+		hashAlg = c.HashAlg
+	case "salt":
+		saltField = c.SaltText
+	}
 
 	ownerName := c.OwnerText + "." + c.ZoneText
 	if len(zone) == 0 {
@@ -254,12 +293,16 @@ func checkCover(c coverCase) error {
 	var rr *dns.NSEC3
 	if c.FromText {
 		// presentation format of RFC 5155 3.3; letter case of base32hex text is not significant (RFC 4648 section 7 alphabet is case-insensitive in DNS use, RFC 5155 examples are lower case)
-		salt := "-"
-		if len(c.Salt) > 0 {
-			salt = hex.EncodeToString(c.Salt)
+		salt := saltField
+		if salt == "" {
+			salt = "-"
 		}
-		txt := fmt.Sprintf("%s 3600 IN NSEC3 1 0 %d %s %s A", ownerName, c.Iter, salt, c.NextText)
+		txt := fmt.Sprintf("%s 3600 IN NSEC3 %d 0 %d %s %s A", ownerName, hashAlg, c.Iter, salt, c.NextText)
 		x, err := dns.NewRR(txt)
+		if err != nil && c.NoHash != "" {
+			pbt.Class("no-hash/refused-by-the-zone-reader")
+			return nil // a reader may refuse such a record; nothing to ask it then
+		}
 		if err != nil {
 			return pbt.Errf("NewRR(%q): %v", txt, err)
 		}
@@ -273,7 +316,7 @@ func checkCover(c coverCase) error {
 		w = binary.BigEndian.AppendUint16(w, 50)
 		w = binary.BigEndian.AppendUint16(w, 1)
 		w = binary.BigEndian.AppendUint32(w, 3600)
-		rd := []byte{1, 0, byte(c.Iter >> 8), byte(c.Iter), byte(len(c.Salt))}
+		rd := []byte{hashAlg, 0, byte(c.Iter >> 8), byte(c.Iter), byte(len(c.Salt))}
 		rd = append(rd, c.Salt...)
 		rd = append(rd, 20)
 		rd = append(rd, c.NextHash...)
@@ -281,6 +324,10 @@ func checkCover(c coverCase) error {
 		w = binary.BigEndian.AppendUint16(w, uint16(len(rd)))
 		w = append(w, rd...)
 		x, _, err := dns.UnpackRR(w, 0)
+		if err != nil && c.NoHash != "" {
+			pbt.Class("no-hash/refused-by-the-wire-decoder")
+			return nil
+		}
 		if err != nil {
 			return pbt.Errf("UnpackRR of a well-formed NSEC3 record failed: %v (%x)", err, w)
 		}
@@ -290,8 +337,23 @@ func checkCover(c coverCase) error {
 		}
 	} else {
 		rr = &dns.NSEC3{Hdr: dns.RR_Header{Name: ownerName, Rrtype: dns.TypeNSEC3, Class: dns.ClassINET, Ttl: 3600},
-			Hash: 1, Iterations: c.Iter, SaltLength: uint8(len(c.Salt)), Salt: hex.EncodeToString(c.Salt),
+			Hash: hashAlg, Iterations: c.Iter, SaltLength: uint8(len(c.Salt)), Salt: saltField,
 			HashLength: 20, NextDomain: ref.Base32Hex(c.NextHash), TypeBitMap: []uint16{dns.TypeA}}
+	}
+	if rr.Hash != hashAlg || (c.NoHash == "salt" && rr.Salt != saltField) {
+		return nil // the reader did not hand the field through as written: not the record this case is about
+	}
+	if c.NoHash != "" {
+		if got := rr.Match(c.NameText); got {
+			return pbt.Errf("NSEC3{owner %s next %s hash algorithm %d salt %q}.Match(%q) = true although no hash can be computed for this record (RFC 5155 defines hash algorithm 1 with a salt of octets only)", rr.Hdr.Name, rr.NextDomain, rr.Hash, rr.Salt, c.NameText)
+		}
+		if c.SkipCover {
+			return nil
+		}
+		if got := rr.Cover(c.NameText); got {
+			return pbt.Errf("NSEC3{owner %s next %s hash algorithm %d salt %q}.Cover(%q) = true although no hash can be computed for this record, so none lies between owner and next hash (interval %s, name in zone: %v)", rr.Hdr.Name, rr.NextDomain, rr.Hash, rr.Salt, c.NameText, shape, in)
+		}
+		return nil
 	}
 	if got := rr.Match(c.NameText); got != wantMatch {
 		return pbt.Errf("NSEC3{owner %s next %s}.Match(%q) = %v, want %v (H(name)=%s, name in zone: %v)", rr.Hdr.Name, rr.NextDomain, c.NameText, got, wantMatch, ref.Base32Hex(h), in)
@@ -526,6 +588,30 @@ func genCover(t *rapid.T) coverCase {
 		pbt.Excluded(findCoverOwner)
 		c.SkipCover = true
 	}
+	// records whose hash cannot be computed (about one case in eight)
+	switch rapid.IntRange(0, 15).Draw(t, "nohash") {
+	case 0:
+		c.NoHash = "alg"
+		c.HashAlg = rapid.OneOf(rapid.SampledFrom([]uint8{0, 2, 3, 255}), rapid.Uint8()).Draw(t, "hashalg")
+		if c.HashAlg == 1 {
+			c.HashAlg = 2
+		}
+	case 1:
+		if !c.FromWire || c.FromText { // the wire carries the salt as octets: there is no malformed salt there
+			c.NoHash = "salt"
+			// not hex, an odd number of digits, a prefix, separators ("-" alone is left out: it is the
+			// zone-file spelling of the empty salt, and a caller may mean that by it)
+			c.SaltText = rapid.SampledFrom([]string{"zz", "abc", "a", "0x00", "g0", "aabbccdde", "--", "0g", "aa-bb", "aa:bb"}).Draw(t, "salttext")
+		}
+	}
+	// while the finding is live: Cover is not asserted where the library's answer is known to be
+	// wrong - the empty "hash" sorts below every real one, which a wrapping or an empty interval
+	// takes for covered. Match, and Cover for ordinary intervals and for names outside the zone, stay
+	// asserted.
+	if c.NoHash != "" && in && bytes.Compare(c.OwnerHash, c.NextHash) >= 0 && pbt.Known(findNoHash) {
+		pbt.Excluded(findNoHash)
+		c.SkipCover = true
+	}
 	return c
 }
 
@@ -543,6 +629,24 @@ func init() {
 		name := ref.Labels{[]byte("a")}
 		h := ref.NSEC3HashRaw(name, nil, 0)
 		return checkCover(coverCase{Zone: nil, Name: name, Iter: 0, OwnerHash: h, NextHash: h, OwnerText: ref.Base32Hex(h), ZoneText: ".", NameText: "a."})
+	})
+	// side remark of a round-7 breaker: the last record of a chain (RFC 5155 Appendix A: t644ebqk... ->
+	// 0p9mhave...) with hash algorithm 2, and the same record with the salt "zz", report every name
+	// of the zone as covered
+	pbt.Probe(findNoHash, func() error {
+		owner, e1 := base32.HexEncoding.DecodeString("T644EBQK9BIBCNA874GIVR6JOJ62MLHV")
+		next, e2 := base32.HexEncoding.DecodeString("0P9MHAVEQVM6T7VBL5LOP2U3T2RP3TOM")
+		if e1 != nil || e2 != nil {
+			return nil
+		}
+		c := coverCase{Zone: [][]byte{[]byte("example")}, Name: [][]byte{[]byte("a"), []byte("example")}, Salt: []byte{0xaa, 0xbb, 0xcc, 0xdd}, Iter: 12,
+			OwnerHash: owner, NextHash: next, OwnerText: strings.ToLower(ref.Base32Hex(owner)), ZoneText: "example.", NameText: "a.example."}
+		c.NoHash, c.HashAlg = "alg", 2
+		if err := checkCover(c); err != nil {
+			return err
+		}
+		c.NoHash, c.HashAlg, c.SaltText = "salt", 0, "zz"
+		return checkCover(c)
 	})
 	pbt.Register(pbt.Sub[hashCase]{Name: "nsec3-hash", Weight: 6, Gen: genHash, Check: checkHash})
 	pbt.Register(pbt.Sub[coverCase]{Name: "nsec3-match-cover", Weight: 10, Gen: genCover, Check: checkCover})
